@@ -11,6 +11,8 @@
     {"op":"evolve", "terms":[…], "cut2":"1/1000000000000"}   the vector `Simulator.evolve` returns: exact un-normalised
         amplitudes, squared norm of input and output, per output the bound `lossAt` on what the native cut can change
     {"op":"evolve_svd", "members":[…], "cut2":…}   the members of `evolve_svd`'s result and the outcome distribution
+    {"op":"keys", "ops":[{"k":"set"|"iadd"|"read","c":component,"s":scaling,"w":"1/3"},…]}   `SVDistribution` as a dict
+        keyed by normalised vectors (Model/C03Keys.lean): stored weights of the repaired and of the pinned code, intended weights
   everything else falls through to the shared specification driver (`handleSim`).
 -/
 import PercevalModel.SimProto
@@ -18,6 +20,7 @@ import PercevalModel.Model.C03
 import PercevalModel.Model.C03Prec
 import PercevalModel.Model.C03Evolve
 import PercevalModel.Model.C03Mixed
+import PercevalModel.Model.C03Keys
 
 open Lean PM PM.Proto PM.Fock PM.Dist PM.SimSpec PM.SimProto PM.C03
 
@@ -203,6 +206,25 @@ def handleE (j : Json) : Except String Json := do
       return Json.mkObj [("tags", toJson univ), ("members", Json.arr members.toArray),
         ("probs", distToJson probs), ("spec", distToJson spec), ("probs_is_spec", toJson (sameDist probs spec)),
         ("totalW", ratToJson (ms.map (·.w)).sum)]
+    | "keys" =>
+      -- a sequence of operations on the dict of a mixture; a key is [component id, scaling id], `norm` = scaling 0
+      let ops ← (← arrOf j "ops").toList.mapM fun oj => do
+        let kind ← strOf oj "k"
+        let key : Nat × Nat := (← natOf oj "c", ← natOf oj "s")
+        match kind with
+        | "set" => pure (KeyOp.set key (← ratOfJson (← oj.getObjVal? "w")))
+        | "iadd" => pure (KeyOp.iadd key (← ratOfJson (← oj.getObjVal? "w")))
+        | "read" => pure (KeyOp.read key)
+        | _ => throw "bad key op"
+      let norm : Nat × Nat → Nat × Nat := fun k => (k.1, 0)
+      let comps := (ops.map fun o => match o with
+        | .set k _ => k.1 | .iadd k _ => k.1 | .read k => k.1).dedup
+      let out := fun (fixed : Bool) =>
+        let d := svdRun fixed norm ops
+        Json.arr (comps.map fun c => Json.arr #[toJson c, ratToJson (wget d (c, 0))]).toArray
+      return Json.mkObj [("fixed", out true), ("current", out false),
+        ("intended", Json.arr (comps.map fun c => Json.arr #[toJson c, ratToJson (intended norm (c, 0) 0 ops)]).toArray),
+        ("len", toJson (svdRun true norm ops).length)]
     | "dm" =>
       let ⟨m, U⟩ ← matOfJson j
       let ms ← membersOf m (← j.getObjVal? "members")
